@@ -198,6 +198,28 @@ def scenarios():
               "requests": [req(0, "recv", "M", 2, 0), req(0, "recv", "K", 1, 2, [0], socket=1)],
               "streams": [{"key": [1, 0, "recv"], "responses": M(2)}, {"key": [1, 1, "recv"], "responses": K(1, [2])},
                           {"key": [1, 5, "recv"], "responses": [{"kind": "E"}]}]})
+    # 22. two subroutines of one application run concurrently and share its registers: while one is suspended in a wait whose
+    #     operand was given in registers, the other leaves other values in those registers (an earlier / later slice, an empty
+    #     one). What the first one waits for was fixed when its wait started.
+    for wname, wait in (("single", "set R0 19\nwait_single @0[R0]\n"), ("any", "set R0 10\nset R1 20\nwait_any @0[R0:R1]\n"),
+                        ("all", "set R0 10\nset R1 20\nwait_all @0[R0:R1]\n")):
+        for r0, r1 in ((0, 10), (1, 0)):
+            other = arr(5, 1) + stores(5, [7]) + f"set R0 {r0}\nset R1 {r1}\nload R9 @5[0]\n"
+            S.append({"name": f"wait-{wname}-operand-registers-changed-by-a-sibling-{r0}-{r1}", "apps": [
+                {"app": 0, "unit": 3, "text": recv_k(0, 1, [0, 1]) + wait + "load R8 @0[19]\n"},
+                {"app": 0, "unit": 3, "text": other}],
+                "requests": [req(0, "recv", "K", 2, 0, [0, 1])], "streams": [{"key": [1, 0, "recv"], "responses": K(2, [1, 2])}]})
+    # 23. two requests outstanding at once whose qubit ids were passed in the SAME array, re-filled in between (a program that
+    #     re-uses its scratch arrays): pair k of a request goes to that request's k-th qubit id
+    S.append({"name": "qubit-id-array-reused-by-the-next-request", "apps": [{"app": 0, "unit": 3, "text":
+              arr(0, 10) + arr(1, 1) + stores(1, [0]) + "recv_epr(1,0) 1 0\n" + arr(2, 10) + stores(1, [1]) + "recv_epr(1,1) 1 2\n" +
+              wall(0, 1) + wall(2, 1)}],
+              "requests": [req(0, "recv", "K", 1, 0, [0], socket=0), req(0, "recv", "K", 1, 2, [1], socket=1)],
+              "streams": [{"key": [1, 0, "recv"], "responses": K(1, [1])}, {"key": [1, 1, "recv"], "responses": K(1, [2])}]})
+    S.append({"name": "qubit-id-array-reused-by-the-next-create-request", "apps": [{"app": 0, "unit": 3, "text":
+              create(0, 1, [0], 2, 0, 1, socket=0) + arr(5, 10) + stores(1, [2]) + "create_epr(1,1) 1 2 5\n" + wall(0, 1) + wall(5, 1)}],
+              "requests": [req(0, "create", "K", 1, 0, [0], socket=0), req(0, "create", "K", 1, 5, [2], socket=1)],
+              "streams": [{"key": [1, 0, "create"], "responses": K(1, [1])}, {"key": [1, 1, "create"], "responses": K(1, [3])}]})
     return S
 
 
